@@ -22,6 +22,17 @@ def flatten_rule(chk, P):
         E = "some!(Iterator::next(IntoIterator::into_iter(Iterator::rev([T]::iter(self.values)))))"
         good = any(x[0] == "call" and x[1] == "HashMap::contains_key" and x[3] is False and x[2][1] == E + ".0" for x in g) and ins[0][1][1] == "Clone::clone(%s.0)" % E and ins[0][1][2] == E + ".1"
     chk.require(good, "GUARD", "GUARD:flatten:first-occurrence-wins", "insert(key, value) only on the !contains_key(key) edge (innermost binding wins)", "flatten inserts %s" % ins)
+    hb = [bb for bb, t in fl.calls() if callee_name(t)[0].endswith("Iterator>::next")]
+    if chk.anchor("flatten loop header", len(hb) == 1):
+        E = "some!(Iterator::next(IntoIterator::into_iter(Iterator::rev([T]::iter(self.values)))))"
+        N = "variant(Iterator::next(IntoIterator::into_iter(Iterator::rev([T]::iter(self.values)))))"
+        CK = "HashMap::contains_key(HashMap::new(), %s.0)" % E
+        want = {(frozenset([(N, ("None",))]), (), "return"),
+                (frozenset([(N, ("Some",)), (CK, True)]), (CK,), "back"),
+                (frozenset([(N, ("Some",)), (CK, False)]), (CK, "Clone::clone(%s.0)" % E, "HashMap::insert(HashMap::new(), Clone::clone(%s.0), %s.1)" % (E, E)), "back")}
+        rows = set(r for r in tab.iteration_table(P, fl, hb[0]) if r[2] != "unreachable")
+        chk.require(rows == want, "TAB", "TAB:flatten:exact-iteration-table", "each trip: skip when the key is already present, else insert (key, value); the scan ends only when the entries are exhausted; nothing else touches the map",
+                    "flatten's loop body behaves as %s" % sorted(rows, key=str))
     r = set(canon(P.sl(fl).ret(rb)) for rb in P.cfg(fl).return_blocks())
     chk.require(r == {"HashMap::new()"}, "ORG", "ORG:flatten:returns-the-built-map", "", "flatten returns %s" % r)
 
